@@ -71,11 +71,13 @@ pub fn replay(cases: &str, verdicts: &str) {
             // history of the optimizer object: fresh, or one that has already solved another problem (one parameter more, then two
             // fewer): the result is a function of the call's arguments alone
             let warm = Cell::new(false);
+            let cloned = Cell::new(false);   // the call is made on a clone of the configured optimizer (a clone carries every hyper-parameter)
             let warmup = |o: &dyn Fn(&[f64])| { if warm.get() { let w: Vec<f64> = (0..x0.len() + 1).map(|i| 1.5 - i as f64).collect(); o(&w); if x0.len() >= 2 { o(&w[..x0.len() - 1]); } } };
             let run = || -> Option<Vec<f64>> {
                 if opt == "sgd" {
                     let (a, b, cc) = (f64s(&cfg["a"]), f64s(&cfg["b"]).iter().map(|t| t * sc).collect::<Vec<f64>>(), num(&cfg["c"]));
                     let o = SGD::new(num(&cfg["alpha"]), num(&cfg["mu"]), cfg["nesterov"].as_bool().unwrap());
+                    let o = if cloned.get() { guard(|| o.clone())? } else { o };
                     guard(|| warmup(&|w: &[f64]| { o.optimize(|p: &[Var], _d: &[&[f64]]| { let mut s = p[0] * p[0]; for i in 1..p.len() { s = s + p[i] * p[i] * (i as f64 + 1.0); } s }, w, &[], 3); }))?;
                     guard(|| o.optimize(|p: &[Var], _d: &[&[f64]]| {
                         evals.set(evals.get() + 1);
@@ -88,6 +90,7 @@ pub fn replay(cases: &str, verdicts: &str) {
                     let (cw, at) = (f64s(&cfg["cw"]), f64s(&cfg["at"]).iter().map(|t| t * sc).collect::<Vec<f64>>());
                     let hinge = cfg["hinge"].as_bool().unwrap_or(false);
                     let o = Adam::new(num(&cfg["alpha"]) * sc, num(&cfg["b1"]), num(&cfg["b2"]), num(&cfg["eps"]));
+                    let o = if cloned.get() { guard(|| o.clone())? } else { o };
                     guard(|| warmup(&|w: &[f64]| { o.optimize(|p: &[Var], _d: &[&[f64]]| { let mut s = p[0] * p[0]; for i in 1..p.len() { s = s + p[i] * p[i] * (i as f64 + 1.0); } s }, w, &[], 3); }))?;
                     guard(|| o.optimize(|p: &[Var], _d: &[&[f64]]| {
                         evals.set(evals.get() + 1);
@@ -115,6 +118,11 @@ pub fn replay(cases: &str, verdicts: &str) {
                 let g3 = run();
                 let n3 = evals.get();
                 warm.set(false);
+                cloned.set(true); evals.set(0);
+                let g4 = run();
+                cloned.set(false);
+                let samec = match (&g, &g4) { (Some(a), Some(b)) => a.iter().zip(b).all(|(x, y)| x.to_bits() == y.to_bits()), _ => false };
+                v.check(samec, "same result on a clone of the optimizer", &class, &json!({"case": c, "maxsteps": budget}), json!({"original": g.as_ref().map(|g| fjs(g)), "clone": g4.as_ref().map(|g| fjs(g))}));
                 let same = match (&g, &g3) { (Some(a), Some(b)) => a.iter().zip(b).all(|(x, y)| x.to_bits() == y.to_bits()), _ => false };
                 v.check(same && n3 == n_evals, "same result on a reused optimizer", &class, &json!({"case": c, "maxsteps": budget}), json!({"fresh": g.as_ref().map(|g| fjs(g)), "reused": g3.as_ref().map(|g| fjs(g)), "evaluations": n3}));
             }
